@@ -377,28 +377,44 @@ def parallelize(  # noqa: C901
     # Gather len(processes) results from the rqueue and join the process's
     # TimeLord instance with the main TimeLord instance.
     # Handle log records created by each process.
+    # The results arrive in the order the child processes finish. Hence, the
+    # result record taken from the result queue can belong to any of the child
+    # processes, whose result is still missing.
+    def stop_processes():
+        """Terminates all child processes, which are still running.
+        """
+        for proc in processes:
+            if proc.is_alive():
+                proc.terminate()
+        for proc in processes:
+            proc.join()
+
     pid_result_list_map = {0: result_list_0}
-    for proc in processes:
-        # Get the result record from the result queue.
-        result_received = False
-        proc_died = False
-        while (result_received is False) and (proc_died is False):
-            try:
-                (pid, result_list, proc_tl) = rqueue.get(block=False)
-                result_received = True
-            except queue.Empty:
-                # If this exception is raised, either the child process isn't
-                # finished yet, or it dies due to an exception.
-                if proc.exitcode is None:
-                    # Child process hasn't finish yet.
-                    # We'll wait a short moment.
-                    time.sleep(0.01)
-                elif proc.exitcode != 0:
-                    proc_died = True
-        if proc_died:
-            raise RuntimeError(
-                f'Child process {proc.pid} did not return with 0! '
-                f'Exit code was {proc.exitcode}.')
+    while len(pid_result_list_map) <= len(processes):
+        # Determine the child processes, which have terminated already, but
+        # whose result is still missing. A child process flushes its result to
+        # the result queue before it terminates. Hence, if the result queue is
+        # empty afterwards, such a child process died, or exited, without
+        # delivering its result.
+        ended_procs = [
+            proc
+            for (pid, proc) in enumerate(processes, start=1)
+            if (pid not in pid_result_list_map) and (proc.exitcode is not None)
+        ]
+        try:
+            # Get the next result record from the result queue.
+            (pid, result_list, proc_tl) = rqueue.get(block=False)
+        except queue.Empty:
+            if len(ended_procs) > 0:
+                proc = ended_procs[0]
+                stop_processes()
+                raise RuntimeError(
+                    f'Child process {proc.pid} did not return a result! '
+                    f'Exit code was {proc.exitcode}.')
+            # The child processes haven't finished yet.
+            # We'll wait a short moment.
+            time.sleep(0.01)
+            continue
 
         pid_result_list_map[pid] = result_list
         if tl is not None:
